@@ -22,6 +22,34 @@ from functools import lru_cache, wraps
 from inspect import getmembers, ismethod
 from typing import Tuple, Optional
 from collections.abc import Hashable
+import os
+
+# -- verification hook (inactive unless PYUNICORN_VERIF=1 and a sink is set) --
+_VERIF = os.environ.get("PYUNICORN_VERIF") == "1"
+_verif_sink = None      # callable(phase, obj, f, attrs, args, kwargs, hit, result)
+_verif_stack = []       # one [miss?] marker per observed lookup in progress
+
+
+def _verif_observed(f, attrs, wrapped):
+    """Report every cache lookup of `f` (hit or miss) to `_verif_sink`."""
+    @wraps(wrapped, assigned=('cache_info', 'cache_clear'), updated=())
+    def observed(self, *args, **kwargs):
+        sink = _verif_sink
+        if sink is None:
+            return wrapped(self, *args, **kwargs)
+        mark = [False]
+        sink("pre", self, f, attrs, args, kwargs, None, None)
+        _verif_stack.append(mark)
+        try:
+            result = wrapped(self, *args, **kwargs)
+        except BaseException:
+            _verif_stack.pop()
+            sink("exc", self, f, attrs, args, kwargs, None, None)
+            raise
+        _verif_stack.pop()
+        sink("post", self, f, attrs, args, kwargs, not mark[0], result)
+        return result
+    return observed
 
 
 class Cached(ABC):
@@ -111,6 +139,8 @@ class Cached(ABC):
             else:
                 def uncached(self, *args, **kwargs):
                     # evaluated at uncached method invocation
+                    if _VERIF and _verif_stack:
+                        _verif_stack[-1][0] = True
                     if (
                       name is not None and
                       getattr(self, "silence_level", 0) <= 1):
@@ -132,6 +162,8 @@ class Cached(ABC):
                         _attrs = (getattr(self, a) for a in attrs)
                         return cached(self, *_attrs, *args, **kwargs)
 
+                if _VERIF:
+                    wrapped = _verif_observed(f, attrs, wrapped)
                 # fully decorated method
                 return wraps(f)(wrapped)
         return wrapper
